@@ -14,6 +14,10 @@ func init() {
 			"C15.5": "LoadFromFile recovers the insert cursor (FreeOffset, ManagedSpaceOffset) from the header's managed-object iterator offset only",
 		},
 	}, ruleC15)
+	except("C15", "C15.1", "structures.WritableFractalHeap.InsertObject#error-return(structures.WritableFractalHeap.insertViaIndirect)#after-mutation",
+		"the only mutation before this exit is the direct->indirect root transition, which creates a 2-entry root with one entry used; the insert that follows allocates the second entry and cannot report 'indirect block full', and the object size was validated before the transition")
+	except("C15", "C15.1", "structures.WritableFractalHeap.InsertObject#error-return(structures.WritableFractalHeap.insertViaDirect)#after-mutation",
+		"insertViaDirect is only reached when RootIndirectBlock is nil, i.e. on the path where no transition happened (needsTransition false or transition failed and returned)")
 }
 
 const heapPfx = "structures.Writable"
@@ -43,7 +47,7 @@ func ruleC15(c *Ctx, r *Result) {
 	// C15.1 failure exits precede every change
 	mut := func(name string) bool {
 		switch name {
-		case "structures.WritableFractalHeap.insertViaDirect", "structures.WritableFractalHeap.insertViaIndirect":
+		case "structures.WritableFractalHeap.insertViaDirect", "structures.WritableFractalHeap.insertViaIndirect", "structures.WritableFractalHeap.transitionToIndirectRoot":
 			return true
 		}
 		return false
